@@ -86,3 +86,8 @@ def path_sig(interp):
     for b in interp.branches:
         h.update(("%s:%d>%d;" % b).encode())
     return h.hexdigest()
+
+
+def coverage(interp):
+    """crate bodies an interpretation entered / had answered by a stub (for call-graph coverage arguments)"""
+    return {"calls": sorted(set(interp.calls)), "stubbed": sorted(interp.stubbed)}
